@@ -1,16 +1,17 @@
 SPECIFICATION Spec
 CONSTANTS
-  Models = {"m1", "m2"}
+  Models = {"m1"}
   QSets = {"q1", "q2"}
-  Requests = {"mono", "pd", "empty", "mode"}
+  Requests = {"mono", "pd", "empty"}
   Slots = {"k1", "k2"}
-  Wrappers = {"w1", "w2"}
+  Wrappers = {"w1"}
   MaxOps = 6
   EmptyReq = "empty"
   ModeReq = "mode"
   Variant = "fixed"
-  TrackHeld = FALSE
-  ReturnsView = FALSE
+  TrackHeld = TRUE
+  ReturnsView = TRUE
 INVARIANT Purity
 INVARIANT ArgsUntouched
+INVARIANT HeldStable
 CHECK_DEADLOCK FALSE
